@@ -122,6 +122,9 @@ Definition sink_get_template_contents (t : handle) : M handle :=
   | None => panic 48
   end.
 
+(* coverage probes inside helpers: logged as arm [k] of pseudo-mode 30 *)
+Definition probe (k : nat) : M unit := log_arm 30 k.
+
 (* ---------- small pieces of mod.rs ---------- *)
 (* fn unexpected: one parse error, ProcessResult::Done *)
 Definition unexpected : M presult := parse_error ;; ret Done.
@@ -169,23 +172,23 @@ Definition remove_from_stack (elem : handle) : M unit :=
 (* the foster-parenting walk over the stack from the top; [l] = open elements, top first *)
 Fixpoint foster_search (s : st) (l : list handle) : M ipoint :=
   match l with
-  | [] => h <- unwrap (nth_error (open_elems s) 0) 7 ;; ret (LastChild h)
+  | [] => probe 5 ;; h <- unwrap (nth_error (open_elems s) 0) 7 ;; ret (LastChild h)
   | e :: rest =>
-    if named s e "template" then c <- sink_get_template_contents e ;; ret (LastChild c)
+    if named s e "template" then probe 3 ;; c <- sink_get_template_contents e ;; ret (LastChild c)
     else if named s e "table" then
       match rest with
-      | p :: _ => ret (TableFoster e p)
+      | p :: _ => probe 4 ;; ret (TableFoster e p)
       | [] => panic 5
       end
     else foster_search s rest
   end.
 
 Definition appropriate_place (override : option handle) : M ipoint :=
-  target <- match override with Some t => ret t | None => current_node end ;;
+  target <- match override with Some t => probe 0 ;; ret t | None => current_node end ;;
   s <- get ;;
   if negb (foster_parenting s && in_set foster_target (ename_of s target)) then
-    if named s target "template" then c <- sink_get_template_contents target ;; ret (LastChild c)
-    else ret (LastChild target)
+    if named s target "template" then probe 1 ;; c <- sink_get_template_contents target ;; ret (LastChild c)
+    else probe 2 ;; ret (LastChild target)
   else foster_search s (rev (open_elems s)).
 
 Definition insert_at (ip : ipoint) (c : child) : M unit :=
@@ -204,8 +207,13 @@ Fixpoint in_scope_l (s : st) (scope : ename -> bool) (pred : handle -> bool) (l 
   | [] => false
   | n :: r => if pred n then true else if scope (ename_of s n) then false else in_scope_l s scope pred r
   end.
+(* deviation 2: default_scope and the lists built on it (recognised by containing MathML mi)
+   lack MathML annotation-xml *)
+Definition scope_for (s : st) (scope : list ename) : list ename :=
+  if negb (dev_on s 2) && in_set scope (ns_mathml, nm "mi") then (ns_mathml, nm "annotation-xml") :: scope
+  else scope.
 Definition in_scope (s : st) (scope : list ename) (pred : handle -> bool) : bool :=
-  in_scope_l s (in_set scope) pred (rev (open_elems s)).
+  in_scope_l s (in_set (scope_for s scope)) pred (rev (open_elems s)).
 Definition in_scope_named (s : st) (scope : list ename) (name : str) : bool :=
   in_scope s scope (fun h => html_elem_named_b s h name).
 
@@ -341,6 +349,7 @@ Definition insert_element (do_push : bool) (ns name : str) (attrs : list dattr) 
     negb (in_set listed en && existsb (attr_is (nm "form")) attrs) in
   elem <- sink_create_element (qn_elem ns name) attrs dup ;;
   (if form_is_associatable then
+     probe 6 ;;
      form <- unwrap (form_elem s) 28 ;;
      emit (OpAssociateForm elem form node1 node2)
    else ret tt) ;;
@@ -371,7 +380,15 @@ Definition should_attach_declarative_shadow (t : tag) : M bool :=
     existsb (fun a => str_eqb (q_local (d_name a)) (nm "shadowrootmode") &&
                       (str_eqb (d_value a) (nm "open") || str_eqb (d_value a) (nm "closed"))) (tg_attrs t) in
   let allow := o_allow_dsr (opts s) in
-  let not_topmost := match open_elems s with [] => true | _ :: _ => Nat.ltb 1 (length (open_elems s)) end in
+  let not_topmost :=
+    match open_elems s with
+    | [] => true
+    | _ :: _ =>
+      Nat.ltb 1 (length (open_elems s)) ||
+      (* deviation 12: in the fragment case with a one-element stack the adjusted current node is the
+         context element, which is not on the stack at all *)
+      (negb (dev_on s 12) && (match context_elem s with Some _ => true | None => false end))
+    end in
   ret (is_shadow_root_mode && allow && not_topmost).
 
 (* append_text / append_comment* *)
@@ -420,6 +437,7 @@ Definition create_formatting_element_for (t : tag) : M handle :=
   s <- get ;;
   let '(first_match, matches) := noah_scan t (af_end_to_marker s) in
   (if Nat.leb 3 matches then
+     probe 7 ;;
      i <- unwrap first_match 29 ;;
      assert (Nat.ltb i (length (active_formatting s))) 46 ;;
      modify (fun s => set_active_formatting (vremove i (active_formatting s)) s)
@@ -461,13 +479,21 @@ Definition reconstruct_active_formatting_elements : M unit :=
   match vlast (active_formatting s) with
   | None => ret tt
   | Some last =>
-    if is_marker_or_open s last then ret tt
+    if is_marker_or_open s last then probe 8
     else
+      probe 9 ;;
       idx <- unwrap (recon_rewind s (length (active_formatting s) - 1)) 23 ;;
       recon_create (S (length (active_formatting s))) idx
   end.
 
 (* ---------- any other end tag (mod.rs:1555-1585) ---------- *)
+(* special_tag with deviations 3, 4, 5 *)
+Definition is_special (s : st) (n : ename) : bool :=
+  (in_set special_tag n && (dev_on s 4 || negb (ename_eqb n (ns_html, nm "isindex")))) ||
+  (negb (dev_on s 3) && ename_eqb n (ns_html, nm "search")) ||
+  (negb (dev_on s 5) && (in_set mathml_text_integration_point n || in_set svg_html_integration_point n ||
+                         ename_eqb n (ns_mathml, nm "annotation-xml"))).
+
 Inductive end_scan := EsMatch (i : nat) | EsSpecial | EsNone.
 (* [l] = (index, handle) pairs, top first *)
 Fixpoint end_tag_scan (s : st) (name : str) (l : list (nat * handle)) : end_scan :=
@@ -475,7 +501,7 @@ Fixpoint end_tag_scan (s : st) (name : str) (l : list (nat * handle)) : end_scan
   | [] => EsNone
   | (i, e) :: r =>
     if html_elem_named_b s e name then EsMatch i
-    else if in_set special_tag (ename_of s e) then EsSpecial
+    else if is_special s (ename_of s e) then EsSpecial
     else end_tag_scan s name r
   end.
 Definition indexed_rev {A} (l : list A) : list (nat * A) := rev (combine (seq 0 (length l)) l).
@@ -483,12 +509,12 @@ Definition indexed_rev {A} (l : list A) : list (nat * A) := rev (combine (seq 0 
 Definition process_end_tag_in_body (name : str) : M unit :=
   s <- get ;;
   match end_tag_scan s name (indexed_rev (open_elems s)) with
-  | EsSpecial => parse_error
-  | EsNone => parse_error                       (* self.unexpected(&tag) *)
+  | EsSpecial => probe 10 ;; parse_error
+  | EsNone => probe 11 ;; parse_error           (* self.unexpected(&tag) *)
   | EsMatch match_idx =>
     generate_implied_end_except name ;;
     s <- get ;;
-    when (negb (Nat.eqb match_idx (length (open_elems s) - 1))) parse_error ;;
+    when (negb (Nat.eqb match_idx (length (open_elems s) - 1))) (probe 12 ;; parse_error) ;;
     modify (fun s => set_open_elems (vtruncate match_idx (open_elems s)) s)
   end.
 
@@ -506,6 +532,7 @@ Fixpoint aaa_inner (node_index counter : nat) (fmt_elem fb last_node : handle) (
     node <- unwrap (nth_error (open_elems s) ni) 11 ;;
     if same_node node fmt_elem then ret (last_node, bm)
     else if Nat.ltb 3 counter then
+      probe 19 ;;
       (match position_in_af s node with
        | Some p => modify (fun s => set_active_formatting (vremove p (active_formatting s)) s)
        | None => ret tt
@@ -515,6 +542,7 @@ Fixpoint aaa_inner (node_index counter : nat) (fmt_elem fb last_node : handle) (
     else
       match position_in_af s node with
       | None =>
+        probe 20 ;;
         modify (fun s => set_open_elems (vremove ni (open_elems s)) s) ;;
         aaa_inner ni counter fmt_elem fb last_node bm
       | Some nfi =>
@@ -523,6 +551,7 @@ Fixpoint aaa_inner (node_index counter : nat) (fmt_elem fb last_node : handle) (
         | FMarker => panic 14
         | FElem h t =>
           assert (same_node h node) 13 ;;
+          probe 21 ;;
           new <- sink_create_element (qn_elem ns_html (tg_name t)) (tg_attrs t) (tg_dup t) ;;
           s <- get ;;
           assert (Nat.ltb ni (length (open_elems s))) 15 ;;
@@ -541,7 +570,7 @@ Fixpoint aaa_inner (node_index counter : nat) (fmt_elem fb last_node : handle) (
 Fixpoint find_special_from (s : st) (l : list (nat * handle)) : option (nat * handle) :=
   match l with
   | [] => None
-  | (i, h) :: r => if in_set special_tag (ename_of s h) then Some (i, h) else find_special_from s r
+  | (i, h) :: r => if is_special s (ename_of s h) then Some (i, h) else find_special_from s r
   end.
 
 (* one iteration of the outer loop; returns true when the algorithm returns *)
@@ -549,26 +578,28 @@ Definition aaa_iteration (subject : str) : M bool :=
   s <- get ;;
   (* 5 *)
   match find (fun x => str_eqb (tg_name (snd x)) subject) (af_end_to_marker s) with
-  | None => process_end_tag_in_body subject ;; ret true
+  | None => probe 14 ;; process_end_tag_in_body subject ;; ret true
   | Some (fmt_elem_index, fmt_elem, fmt_elem_tag) =>
     match rposition (fun n => same_node n fmt_elem) (open_elems s) with
     | None =>
+      probe 15 ;;
       parse_error ;;
       assert (Nat.ltb fmt_elem_index (length (active_formatting s))) 46 ;;
       modify (fun s => set_active_formatting (vremove fmt_elem_index (active_formatting s)) s) ;;
       ret true
     | Some fmt_elem_stack_index =>
       (* 7 *)
-      if negb (in_scope s default_scope (fun n => same_node n fmt_elem)) then parse_error ;; ret true
+      if negb (in_scope s default_scope (fun n => same_node n fmt_elem)) then probe 16 ;; parse_error ;; ret true
       else
         (* 8 *)
         cur <- current_node ;;
-        when (negb (same_node cur fmt_elem)) parse_error ;;
+        when (negb (same_node cur fmt_elem)) (probe 17 ;; parse_error) ;;
         (* 9 *)
         match find_special_from s (skipn fmt_elem_stack_index
                                          (combine (seq 0 (length (open_elems s))) (open_elems s))) with
         | None =>
           (* 10 *)
+          probe 18 ;;
           assert (Nat.ltb fmt_elem_index (length (active_formatting s))) 46 ;;
           modify (fun s => set_active_formatting (vremove fmt_elem_index (active_formatting s))
                              (set_open_elems (vtruncate fmt_elem_stack_index (open_elems s)) s)) ;;
@@ -596,10 +627,12 @@ Definition aaa_iteration (subject : str) : M bool :=
           (* 18 *)
           (match bm with
            | BmReplace to_replace =>
+             probe 22 ;;
              s <- get ;;
              index <- unwrap (position_in_af s to_replace) 17 ;;
              modify (fun s => set_active_formatting (vset index new_entry (active_formatting s)) s)
            | BmInsertAfter previous =>
+             probe 23 ;;
              s <- get ;;
              p <- unwrap (position_in_af s previous) 18 ;;
              let index := S p in
@@ -621,7 +654,7 @@ Definition aaa_iteration (subject : str) : M bool :=
 
 Fixpoint aaa_outer (n : nat) (subject : str) : M unit :=
   match n with
-  | 0 => ret tt
+  | 0 => probe 24
   | S n' => stop <- aaa_iteration subject ;; if stop then ret tt else aaa_outer n' subject
   end.
 
@@ -630,7 +663,7 @@ Definition adoption_agency (subject : str) : M unit :=
   cur <- current_node ;;
   s <- get ;;
   if html_elem_named_b s cur subject && (match position_in_af s cur with None => true | Some _ => false end)
-  then _e <- pop ;; ret tt
+  then probe 13 ;; _e <- pop ;; ret tt
   else aaa_outer 8 subject.
 
 (* fn handle_misnested_a_tags *)
@@ -639,6 +672,7 @@ Definition handle_misnested_a_tags : M unit :=
   match find (fun x => named s (snd (fst x)) "a") (af_end_to_marker s) with
   | None => ret tt
   | Some (_, node, _) =>
+    probe 25 ;;
     parse_error ;;
     adoption_agency (nm "a") ;;
     s <- get ;;
@@ -654,24 +688,24 @@ Definition handle_misnested_a_tags : M unit :=
    the context element when there is one *)
 Fixpoint reset_loop (s : st) (l : list handle) : M imode :=
   match l with
-  | [] => ret InBody
+  | [] => probe 38 ;; ret InBody
   | node0 :: r =>
     let last := match r with [] => true | _ :: _ => false end in
     let node := match last, context_elem s with true, Some ctx => ctx | _, _ => node0 end in
     let '(ns, name) := ename_of s node in
     if negb (str_eqb ns ns_html) then reset_loop s r
-    else if (is_n name "td" || is_n name "th") && negb last then ret InCell
-    else if is_n name "tr" then ret InRow
-    else if is_n name "tbody" || is_n name "thead" || is_n name "tfoot" then ret InTableBody
-    else if is_n name "caption" then ret InCaption
-    else if is_n name "colgroup" then ret InColumnGroup
-    else if is_n name "table" then ret InTable
-    else if is_n name "template" then unwrap (vlast (template_modes s)) 26
-    else if is_n name "head" then (if negb last then ret InHead else reset_loop s r)
-    else if is_n name "body" then ret InBody
-    else if is_n name "frameset" then ret InFrameset
+    else if (is_n name "td" || is_n name "th") && negb last then probe 26 ;; ret InCell
+    else if is_n name "tr" then probe 27 ;; ret InRow
+    else if is_n name "tbody" || is_n name "thead" || is_n name "tfoot" then probe 28 ;; ret InTableBody
+    else if is_n name "caption" then probe 29 ;; ret InCaption
+    else if is_n name "colgroup" then probe 30 ;; ret InColumnGroup
+    else if is_n name "table" then probe 31 ;; ret InTable
+    else if is_n name "template" then probe 32 ;; unwrap (vlast (template_modes s)) 26
+    else if is_n name "head" then (if negb last then probe 33 ;; ret InHead else reset_loop s r)
+    else if is_n name "body" then probe 34 ;; ret InBody
+    else if is_n name "frameset" then probe 35 ;; ret InFrameset
     else if is_n name "html" then
-      match head_elem s with None => ret BeforeHead | Some _ => ret AfterHead end
+      match head_elem s with None => probe 36 ;; ret BeforeHead | Some _ => probe 37 ;; ret AfterHead end
     else reset_loop s r
   end.
 Definition reset_insertion_mode : M imode := s <- get ;; reset_loop s (rev (open_elems s)).
@@ -729,20 +763,27 @@ Definition adjust_attrs (map : str -> option qualname) (attrs : list dattr) : li
                      | None => a
                      end) attrs.
 Definition adjust_svg_attributes (attrs : list dattr) : list dattr :=
-  adjust_attrs (fun k => option_map qn_plain (assoc k svg_attr_names)) attrs.
+  adjust_attrs (fun k => assoc_q k svg_attr_names) attrs.
 Definition adjust_mathml_attributes (attrs : list dattr) : list dattr :=
-  adjust_attrs (fun k => option_map qn_plain (assoc k mathml_attr_names)) attrs.
-Definition adjust_foreign_attributes (attrs : list dattr) : list dattr :=
-  adjust_attrs (fun k => assoc_q k foreign_attr_names) attrs.
+  adjust_attrs (fun k => assoc_q k mathml_attr_names) attrs.
+(* deviation 10: `xmlns` is adjusted to prefix Some(""), WHATWG: no prefix *)
+Definition adjust_foreign_attributes (whatwg_xmlns : bool) (attrs : list dattr) : list dattr :=
+  adjust_attrs (fun k => match assoc_q k foreign_attr_names with
+                         | Some q => if whatwg_xmlns && str_eqb k (nm "xmlns")
+                                     then Some {| q_prefix := None ; q_ns := q_ns q ; q_local := q_local q |}
+                                     else Some q
+                         | None => None
+                         end) attrs.
 Definition adjust_svg_tag_name (name : str) : str :=
   match assoc name svg_tag_names with Some n => n | None => name end.
 
 (* fn enter_foreign *)
 Definition enter_foreign (t : tag) (ns : str) : M presult :=
+  s <- get ;;
   let attrs := tg_attrs t in
   let attrs := if str_eqb ns ns_mathml then adjust_mathml_attributes attrs
                else if str_eqb ns ns_svg then adjust_svg_attributes attrs else attrs in
-  let attrs := adjust_foreign_attributes attrs in
+  let attrs := adjust_foreign_attributes (negb (dev_on s 10)) attrs in
   if tg_self t then _e <- insert_element false ns (tg_name t) attrs (tg_dup t) ;; ret DoneAckSelfClosing
   else _e <- insert_element true ns (tg_name t) attrs (tg_dup t) ;; ret Done.
 
@@ -755,26 +796,30 @@ Definition foreign_start_tag (t : tag) : M presult :=
   let attrs := tg_attrs t in
   let attrs := if str_eqb current_ns ns_mathml then adjust_mathml_attributes attrs
                else if str_eqb current_ns ns_svg then adjust_svg_attributes attrs else attrs in
-  let attrs := adjust_foreign_attributes attrs in
+  let attrs := adjust_foreign_attributes (negb (dev_on s 10)) attrs in
   if tg_self t then _e <- insert_element false current_ns name attrs (tg_dup t) ;; ret DoneAckSelfClosing
   else _e <- insert_element true current_ns name attrs (tg_dup t) ;; ret Done.
 
 (* the pop loop of unexpected_start_tag_in_foreign_content: `self.pop()` until the
    current node is an HTML element or an integration point; [l] top first.
    None: the stack would run empty (current_node's expect, site 9) *)
-Definition foreign_stop (n : ename) : bool :=
-  str_eqb (fst n) ns_html || in_set mathml_text_integration_point n || in_set svg_html_integration_point n.
+Definition foreign_stop (s : st) (h : handle) : bool :=
+  let n := ename_of s h in
+  str_eqb (fst n) ns_html || in_set mathml_text_integration_point n || in_set svg_html_integration_point n ||
+  (* deviation 6 *)
+  (negb (dev_on s 6) && ename_eqb n (ns_mathml, nm "annotation-xml") && is_mathml_ip s h).
 Fixpoint foreign_pop_split (s : st) (l : list handle) : option (list handle * list handle) :=
   match l with
   | [] => None
   | e :: r =>
-    if foreign_stop (ename_of s e) then Some ([], l)
+    if foreign_stop s e then Some ([], l)
     else match foreign_pop_split s r with Some (p, q) => Some (e :: p, q) | None => None end
   end.
 Definition pop_to_html_or_integration_point : M unit :=
   s <- get ;;
   match foreign_pop_split s (rev (open_elems s)) with
   | Some (popped, rest) =>
+    when (negb (match popped with [] => true | _ => false end)) (probe 39) ;;
     modify (set_open_elems (rev rest)) ;;
     mapM_ (fun e => emit (OpPop e)) popped
   | None =>
@@ -789,18 +834,26 @@ Definition contains_pfx (haystack : list str) (needle : str) : bool :=
   existsb (fun x => starts_with needle x) haystack.
 Definition str_mem (x : str) (l : list str) : bool := existsb (str_eqb x) l.
 
-Definition doctype_error_and_quirks (name pub sys : option str) (force_quirks iframe_srcdoc : bool) : bool * N :=
-  let err := negb (ostr_is name (nm "html") &&
-                   existsb (fun p => ostr_eqb (fst p) pub && ostr_eqb (snd p) sys) ok_doctypes) in
+(* [srcdoc_first]: WHATWG order of the tests (deviation 8); [silmaril]: the public-id prefix
+   "+//silmaril//dtd html pro v0r11 19970101//" of the standard's list that data.rs lacks (deviation 13) *)
+Definition doctype_error_and_quirks (srcdoc_first silmaril : bool) (name pub sys : option str)
+           (force_quirks iframe_srcdoc : bool) : bool * N :=
+  let err := negb (existsb (fun t => ostr_eqb (fst (fst t)) name && ostr_eqb (snd (fst t)) pub &&
+                                     ostr_eqb (snd t) sys) ok_doctypes) in
   let public := option_map to_ascii_lowercase pub in
   let system := option_map to_ascii_lowercase sys in
   let quirk : N :=
-    if force_quirks then 0%N
+    if srcdoc_first && iframe_srcdoc then 2%N
+    else if force_quirks then 0%N
     else if negb (ostr_is name (nm "html")) then 0%N
     else if iframe_srcdoc then 2%N
     else if match public with Some p => str_mem p quirky_public_matches | None => false end then 0%N
     else if match system with Some s => str_mem s quirky_system_matches | None => false end then 0%N
-    else if match public with Some p => contains_pfx quirky_public_prefixes p | None => false end then 0%N
+    else if match public with
+            | Some p => contains_pfx quirky_public_prefixes p ||
+                        (silmaril && starts_with p (nm "+//silmaril//dtd html pro v0r11 19970101//"))
+            | None => false
+            end then 0%N
     else if match public with Some p => contains_pfx limited_quirky_public_prefixes p | None => false end then 1%N
     else if match public with Some p => contains_pfx html4_public_prefixes p | None => false end then
       match system with None => 0%N | Some _ => 1%N end
@@ -819,7 +872,7 @@ Definition extract_encoding (content : str) : M (option str) :=
 
 Definition meta_like_result (t : tag) : M presult :=
   match get_attribute t (nm "charset") with
-  | Some charset => ret (PEncoding charset)
+  | Some charset => probe 49 ;; ret (PEncoding charset)
   | None =>
     if match get_attribute t (nm "http-equiv") with
        | Some v => eq_ignore_ascii_case v (nm "content-type")
@@ -829,7 +882,7 @@ Definition meta_like_result (t : tag) : M presult :=
       match get_attribute t (nm "content") with
       | Some c =>
         r <- extract_encoding c ;;
-        match r with Some e => ret (PEncoding e) | None => ret DoneAckSelfClosing end
+        match r with Some e => probe 50 ;; ret (PEncoding e) | None => ret DoneAckSelfClosing end
       | None => ret DoneAckSelfClosing
       end
     else ret DoneAckSelfClosing
